@@ -901,11 +901,21 @@ class Callable(BaseCallable):
     """
     def __init__(self, value=None, allow_none=True, **metadata):
 
+        self._allow_none = allow_none
         self.fast_validate = (ValidateTrait.callable, allow_none)
 
         default_value = metadata.pop("default_value", value)
 
         super().__init__(default_value, **metadata)
+
+    def validate(self, object, name, value):
+        """ Validates that the value is a Python callable, or None if
+        ``allow_none`` is true.
+        """
+        if value is None and not self._allow_none:
+            self.error(object, name, value)
+
+        return super().validate(object, name, value)
 
 
 class BaseType(TraitType):
